@@ -21,6 +21,8 @@
  * limitations under the License.
  */
 
+#include <inttypes.h>
+#include <math.h>
 #include <stdio.h>
 
 #include "cmb_logger.h"
@@ -205,6 +207,37 @@ void cmb_wtdsummary_print(const struct cmb_wtdsummary *wsp,
     cmb_assert_release(wsp != NULL);
     cmb_assert_release(((struct cmb_datasummary *)wsp)->cookie == CMI_INITIALIZED);
 
-    cmb_datasummary_print((struct cmb_datasummary *)wsp, fp, lead_ins);
+    /* Same layout as cmb_datasummary_print, using the weighted statistics */
+    const uint64_t n = cmb_wtdsummary_count(wsp);
+    int r = fprintf(fp, "%s%8" PRIu64, ((lead_ins)? "N ": ""), n);
+    cmb_assert_release(r > 0);
+    if (n > 0u) {
+        r = fprintf(fp, "%s%#8.4g", ((lead_ins) ? "  Mean " : "\t"),
+                    cmb_wtdsummary_mean(wsp));
+        cmb_assert_release(r > 0);
+    }
+
+    if (n > 1u) {
+        const double var = cmb_wtdsummary_variance(wsp);
+        r = fprintf(fp, "%s%#8.4g", ((lead_ins) ? "  StdDev " : "\t"), sqrt(var));
+        cmb_assert_release(r > 0);
+        r = fprintf(fp, "%s%#8.4g", ((lead_ins) ? "  Variance " : "\t"), var);
+        cmb_assert_release(r > 0);
+    }
+
+    if (n > 2u) {
+        r = fprintf(fp, "%s%#8.4g", ((lead_ins) ? "  Skewness " : "\t"),
+                    cmb_wtdsummary_skewness(wsp));
+        cmb_assert_release(r > 0);
+    }
+
+    if (n > 3u) {
+        r = fprintf(fp, "%s%#8.4g", ((lead_ins) ? "  Kurtosis " : "\t"),
+                    cmb_wtdsummary_kurtosis(wsp));
+        cmb_assert_release(r > 0);
+    }
+
+    r = fprintf(fp, "\n");
+    cmb_assert_release(r > 0);
 }
 
